@@ -1,5 +1,7 @@
 import CanopenModel.Driver.C02
+import CanopenModel.Driver.C01
 import CanopenModel.Sdo.Client
+import CanopenModel.Sdo.Disturb
 /-!
 C06 driver: the server-side operations of C02, plus `cab <code>`: what the client raises when it
 finds an abort frame carrying `code` (decoding of the 32-bit little-endian abort code).
@@ -17,6 +19,23 @@ def step (args : List String) : String :=
        | .error _ => "err other"
        | .ok _ => "ok")
     | none => "bad-op"
+  | ["cabn", code, k, n] =>
+    -- a download of `n` bytes WITHOUT declared size through the file interface; the server's answer
+    -- to request number `k` (0 = initiate, …, the last = the closing empty segment) is an abort
+    -- frame with `code`
+    match code.toNat?, k.toNat?, n.toNat? with
+    | some code, some k, some n =>
+      let data : Bytes := (List.range n).map fun i => (i * 7 + 1) % 256
+      let frame : Bytes := [0x80, 0x00, 0x20, 0x00] ++ leBytes 4 code
+      let s0 := Spec.ssInit [] { sizeIndicated := true, expedited := true, expSize := true, cuts := [] }
+      let c0 : Chan (C01.PS × DState) :=
+        { peer := ((s0, []), { idx := 0, pending := [] }), queue := [], sent := [] }
+      (match downloadWith (distPeer C01.peer k (.replace frame)) c0 0x2000 0 data false false [] with
+       | (_, .ok _) => "ok"
+       | (_, .error (.aborted c)) => s!"err aborted {c}"
+       | (_, .error .comm) => "err comm"
+       | (_, .error _) => "err other")
+    | _, _, _ => "bad-op"
   | ["cbref", od, idx, sub, hex, exp, code] =>
     -- the application's write callback refuses downloads to idx:sub with `code`
     match C02.parseOd od, idx.toNat?, sub.toNat?, parseHex hex, parseBool exp, code.toNat? with
